@@ -40,4 +40,4 @@ LEVEL_TEXT = ('Bounded symbolic verification with symbolic INTEGERS: the real in
               'nr*ntheta < 2^31; neighbour/spacing/coarsening queries are proved on concrete shapes with symbolic coordinates, the split for an arbitrary symbolic splitting radius.')
 LEVEL_NOTE = 'sizes bounded only by nr*ntheta < 2^31 for the numbering; bit-mask wrap per concrete power of two; neighbour queries on listed shapes'
 TECHNIQUE = 'symbolic execution of LLVM IR (llsym) with symbolic integers (Int + overflow obligations) + SMT (z3 QF_NIA/QF_LIA)'
-DESIGN_REF = 'DESIGN.md section 6/C17'
+DESIGN_REF = 'DESIGN.md section 0 (status as built: 0.2, 0.5, 0.6) and section 6/C17 (design)'
